@@ -72,7 +72,17 @@ class MethodMixin(object):
             return self.reg_method(recv, name, args, kwargs, state, frame, node)
         if k == "coll":
             if name in ("add", "append", "extend", "insert", "update"):
-                rec = {"elem": args[-1] if args else NONE, "pc": state.pc,
+                el = args[-1] if args else NONE
+                if name in ("extend", "update"):
+                    # adding every element of an iterable
+                    src = el
+                    if src[0] == "comp":
+                        el = src[2]
+                    else:
+                        if src[0] == "cursor":
+                            src = ("rows", src[1])
+                        el = ("elem", src, self.site(frame, node))
+                rec = {"elem": el, "pc": state.pc,
                        "site": self.site(frame, node), "func": frame.func.qualname,
                        "op": name}
                 lst = self.coll_adds.setdefault(recv[1], [])
